@@ -6,22 +6,23 @@
 (*                                                                         *)
 (* Initial states = the feature product of layouts (MxFormulaBase part 1), *)
 (* or the sample of it selected by SampleMod / VERIF_SEED.                 *)
-(* One action per step of the code:                                        *)
-(*   GetSource        formula.py:313-315 (text), :319-325 inspect.getsource*)
-(*                    / :259-267 inspect.findsource (objects)              *)
-(*   Classify         is_funcdef :100-113 / has_lambda :234-241 /          *)
-(*                    is_func_lambda :244, the lambdas of the line :270-281*)
-(*   DedentStep       textwrap.dedent :332, :341-343                       *)
-(*   RemoveDecoratorStep   remove_decorator :131-148                       *)
-(*   ReplaceFuncNameStep   replace_funcname :151-176                       *)
-(*   CompileStep      compile/exec :347-353                                *)
-(*   ExtractLambdaStep     extract_lambda_from_source/_func :248-281       *)
-(*   ExecLambdaStep   _init_from_lambda :355-370                           *)
+(* One action per step of the code (formula.py / cells.py line numbers):   *)
+(*   GetSource        Formula.__init__ :383-385 (text), _init_from_func    *)
+(*                    :389-395 inspect.getsource / extract_lambda_from_func*)
+(*                    :330-337 inspect.findsource (objects)                *)
+(*   Classify         is_funcdef :139-152 / has_lambda :282-289 /          *)
+(*                    is_func_lambda :292, the lambdas of the line :341-351*)
+(*   DedentStep       formula.dedent :102-136 called at :402, :411-413     *)
+(*   RemoveDecoratorStep   remove_decorator :170-187                       *)
+(*   ReplaceFuncNameStep   replace_funcname :190-215                       *)
+(*   CompileStep      compile/exec :417-423                                *)
+(*   ExtractLambdaStep     extract_lambda_from_source/_func :319-351       *)
+(*   ExecLambdaStep   _init_from_lambda :425-440                           *)
 (* and, on a captured formula,                                             *)
-(*   Recreate         a new cells from formula.source (:327-335)           *)
-(*   Rename(n)        cells.py:914-932 on_rename                           *)
-(*   SetDoc(k, ii)    cells.py:895-912 set_doc = replace_docstring         *)
-(*                    (formula.py:179-231) + set_cells_formula             *)
+(*   Recreate         a new cells from formula.source (:397-405)           *)
+(*   Rename(n)        cells.py:921-944 on_rename                           *)
+(*   SetDoc(k, ii)    cells.py:907-919 set_doc = replace_docstring         *)
+(*                    (formula.py:226-279) + set_cells_formula             *)
 (*   SetRef(v)        the global name of the function gets another value   *)
 (* The C20 predicates (MxFormulaBase part 4/5) are the invariants; they    *)
 (* are evaluated on the projection of the model state that has the shape   *)
@@ -57,7 +58,7 @@ Sampled(l) == IF SampleMod = 1 THEN TRUE ELSE Hash(l, Seed) % SampleMod = 0
 NoArg == [name |-> "", k |-> 0, ii |-> FALSE, g |-> 0]
 
 \* one history per layout, varying with the layout
-DocK(l, n)  == LET k == 11 + ((Mix(l) \div n) % 6) IN IF l.hdr = "one" /\ k = 12 THEN 13 ELSE k
+DocK(l, n)  == LET k == 11 + ((Mix(l) \div n) % 7) IN IF l.hdr = "one" /\ k = 12 THEN 13 ELSE k
 Script(l) ==
     << [op |-> "setref",   arg |-> [NoArg EXCEPT !.g = 11]],
        [op |-> "recreate", arg |-> NoArg],
